@@ -262,6 +262,14 @@ TEXTUAL = [
     ("C02", "kronecker-ignores-reverse", "tensorly/tenalg/core_tenalg/_kronecker.py", "    for i, matrix in enumerate(matrices[::order]):", "    for i, matrix in enumerate(matrices):"),
     ("C02", "memory-mttkrp-drops-weights", "tensorly/tenalg/core_tenalg/mttkrp.py", "        return T.stack(mttkrp_parts, axis=1) * T.reshape(weights, (1, -1))", "        return T.stack(mttkrp_parts, axis=1)"),
     ("C02", "unknown-keyword", "tensorly/cp_tensor.py", "khatri_rao(factors, skip_matrix=0)", "khatri_rao(factors, skip=0)"),
+    ("C02", "core-khatri-rao-double-first", "tensorly/tenalg/core_tenalg/_khatri_rao.py", "    for i, e in enumerate(matrices[1:]):", "    for i, e in enumerate(matrices):"),
+    ("C02", "core-kronecker-squares", "tensorly/tenalg/core_tenalg/_kronecker.py", "            res = T.kron(res, matrix)", "            res = T.kron(res, T.kron(matrix, matrix))"),
+    ("C02", "core-kronecker-skip-ignored", "tensorly/tenalg/core_tenalg/_kronecker.py", "    if skip_matrix is not None:\n        matrices = [matrices[i] for i in range(len(matrices)) if i != skip_matrix]\n\n    if reverse:", "    if reverse:"),
+    ("C02", "einsum-khatri-rao-mask-dropped", "tensorly/tenalg/einsum_tenalg/_khatri_rao.py", "        matrices = matrices + [mask]\n", "        matrices = matrices + [T.ones(T.shape(mask))]\n"),
+    ("C02", "einsum-khatri-rao-weights-twice", "tensorly/tenalg/einsum_tenalg/_khatri_rao.py", "        matrices = matrices + [weights]\n", "        matrices = matrices + [weights * weights]\n"),
+    ("C02", "einsum-multi-mode-dot-skip-ignored", "tensorly/tenalg/einsum_tenalg/n_mode_product.py", "        if (skip is not None) and (i == skip):\n            # print(f'skipping {skip}')\n            continue\n", "        if (skip is not None) and (i == skip):\n            pass\n"),
+    ("C02", "core-multi-mode-dot-applies-twice", "tensorly/tenalg/core_tenalg/n_mode_product.py", "            res = mode_dot(res, matrix_or_vec, mode - decrement)\n\n        if T.ndim", "            res = mode_dot(mode_dot(res, matrix_or_vec, mode - decrement), matrix_or_vec, mode - decrement)\n\n        if T.ndim"),
+    ("C02", "einsum-kronecker-drops-last", "tensorly/tenalg/einsum_tenalg/_kronecker.py", "T.einsum(equation, *matrices[::order])", "T.einsum(equation, *matrices[::order][:-1])"),
     ("C03", "cp-ctor-skips-validation", "tensorly/cp_tensor.py", "        shape, rank = _validate_cp_tensor(cp_tensor)\n        weights, factors = cp_tensor\n", "        weights, factors = cp_tensor\n        shape, rank = tuple(f.shape[0] for f in factors), factors[0].shape[1]\n"),
     ("C03", "tt-vec-of-other-family", "tensorly/tt_tensor.py", "    return tl.tensor_to_vec(tt_to_tensor(factors))", "    return tl.tensor_to_vec(tt_to_tensor(factors[::-1]))"),
     ("C03", "tucker-unfolded-wrong-mode", "tensorly/tucker_tensor.py", "        mode,\n    )", "        mode + 1,\n    )"),
